@@ -100,7 +100,7 @@ func runMulti(in []string) (out []string) {
 			return p1x.Action{Bytes: []byte("HTTP/1.1 500 Unexpected\r\nContent-Length: 0\r\nConnection: close\r\n\r\n"), Close: true}
 		}
 		time.Sleep(gap / 2)
-		return p1x.Action{Bytes: all[j].responseBytes(), Close: all[j].originCloses()}
+		return all[j].originAction()
 	})
 	pl, err := net.Listen("tcp", "127.0.0.1:0")
 	if err != nil {
